@@ -92,6 +92,44 @@ Theorem c10_parts_old_refuted :
   get_ext_old s (b_id (ex_main 2)) <> b_ext (ex_main 2).
 Proof. exact parts_old_refuted. Qed.
 
+(* Side-chain blocks (siblings of main-chain blocks, at any height): at every point of any sequence of
+   passes and crashes a stored side-chain block is either removed as a whole (header row too) or every
+   getter still answers it with its own parts — never with the main-chain block that the freezer, which
+   is indexed by number alone, holds at the same height. *)
+Theorem c10_side_read_invariant : forall (main : nat -> blk) (tip : nat),
+  (forall h h', 0 < h <= tip -> 0 < h' <= tip -> b_id (main h) = b_id (main h') -> h = h') ->
+  forall s ops n sb, pinitial main tip s -> not_main main tip (b_id sb) -> b_body sb <> [] -> side_stored s n sb ->
+  let s' := prun s ops in let id := b_id sb in
+  get_header s' id = None \/
+  (get_header s' id = Some (b_hdr sb) /\
+   get_body s' id = b_body sb /\
+   get_cellbase s' id = hd_error (b_body sb) /\
+   get_uncles s' id = Some (b_uncles sb) /\
+   get_props s' id = Some (b_props sb) /\
+   get_ext s' id = b_ext sb /\
+   get_block s' id = Some sb /\
+   get_packed_block s' id = Some sb).
+Proof. exact side_read_invariant. Qed.
+
+(* non-vacuity: the example's sibling of block 2 survives a crash between the two wipe-out batches
+   and reads as itself with 4 blocks frozen *)
+Theorem c10_side_example :
+  (side_stored ex_s0 2 ex_side /\ not_main ex_main 5 (b_id ex_side) /\ b_body ex_side <> []) /\
+  let s := prun ex_s0 ex_ops in
+  p_hdr s 999%N = Some (2, 888%N) /\ length (p_fz s) = 4 /\
+  get_block s 999%N = Some ex_side /\ get_packed_block s 999%N = Some ex_side /\ get_ext s 999%N = None /\
+  get_uncles s 999%N = Some 666%N.
+Proof. exact (conj ex_side_stored ex_side_after_crash). Qed.
+
+(* F18: with the freezer consulted by number alone (get_block / get_frozen_block before the repair)
+   the same reads answer with main-chain block 2, and the extension fallback picks up block 2's *)
+Theorem c10_bynum_refuted :
+  let s := prun ex_s0 ex_ops in
+  get_block_bynum s 999%N = Some (ex_main 2) /\ get_block_bynum s 999%N <> Some ex_side /\
+  get_frozen_block_bynum s 999%N = Some (ex_main 2) /\
+  orelse (p_ext s 999%N) (match get_frozen_block_bynum s 999%N with Some b => b_ext b | None => None end) = Some 702%N.
+Proof. exact bynum_refuted. Qed.
+
 Redirect "out/C10.c10_reads_invariant" Print Assumptions c10_reads_invariant.
 Redirect "out/C10.c10_step_inv" Print Assumptions c10_step_inv.
 Redirect "out/C10.c10_wipe_only_frozen" Print Assumptions c10_wipe_only_frozen.
@@ -102,3 +140,6 @@ Redirect "out/C10.c10_only_frozen_or_side_removed" Print Assumptions c10_only_fr
 Redirect "out/C10.c10_parts_inv_reachable" Print Assumptions c10_parts_inv_reachable.
 Redirect "out/C10.c10_parts_example" Print Assumptions c10_parts_example.
 Redirect "out/C10.c10_parts_old_refuted" Print Assumptions c10_parts_old_refuted.
+Redirect "out/C10.c10_side_read_invariant" Print Assumptions c10_side_read_invariant.
+Redirect "out/C10.c10_side_example" Print Assumptions c10_side_example.
+Redirect "out/C10.c10_bynum_refuted" Print Assumptions c10_bynum_refuted.
